@@ -1,5 +1,6 @@
 CONSTANTS
   StopMode = "none"
+  Lys = @LYS@
   Tier = "@TIER@"
 INIT FamInit
 NEXT Next
